@@ -5,7 +5,7 @@
 R=${REPLAY_REPO:-/repo}; export VERIF_REPO=$R
 cd $R || exit 2
 git diff --quiet || { echo "/repo has uncommitted changes"; exit 2; }
-extra() { case "$1" in C03) echo "C05 C09";; C16) echo "C02";; C10) echo "C02";; C01) echo "C15";; C05) echo "C01";; *) echo "";; esac; }
+extra() { case "$1" in C03) echo "C05 C09";; C16) echo "C02";; C10) echo "C02";; C01) echo "C15 C02";; C05) echo "C01";; *) echo "";; esac; }
 for d in /verif/seeded/*/; do
   id=$(basename "$d"); prop=${id%%-*}
   if ! git apply "$d/patch.diff" 2>/dev/null; then echo "$id: PATCH DOES NOT APPLY"; continue; fi
